@@ -201,6 +201,8 @@ def check_served(url: str, classes=None):
     label = f"{key}.{kind}" + (".vars" if inp else "")
     if status != 200:
         return f"dead-url: emitted URL {url} ({label}) answered {status}, expected 200 with {key}'s {kind}"
+    if bodies == ():
+        return f"no-code: emitted URL {url} names {label}, but that class has no {kind} (answered 200 with {body[:60]!r})"
     if bodies is not None and body not in bodies:
         return f"wrong-body: emitted URL {url} ({label}) served {body[:60]!r}, expected {bodies[-1][:60]!r}"
     if not ctype.startswith(CTYPE[kind]):
@@ -248,15 +250,19 @@ def hist_ops():
     return ops
 
 
+def _fresh_library(cache_cfg):
+    from django_components import cache as djc_cache
+
+    env()
+    boot.set_components_setting(cache=None if cache_cfg == "builtin" else cache_cfg)
+    djc_cache.component_media_cache = None
+    media_cache().clear()
+    boot.ID_SEAM.reset()
+
+
 class World:
     def __init__(self, cache_cfg):
-        from django_components import cache as djc_cache
-
-        env()
-        boot.set_components_setting(cache=None if cache_cfg == "builtin" else cache_cfg)
-        djc_cache.component_media_cache = None
-        media_cache().clear()
-        boot.ID_SEAM.reset()
+        _fresh_library(cache_cfg)
         self.cache_cfg = cache_cfg
         self.saved = {}  # class key -> pre-rendered html
         self.trace = ()
@@ -402,6 +408,259 @@ def _cleanup():
     djc_cache.component_media_cache = None
     media_cache().clear()
     boot.clear_render_registries()
+
+
+# ----------------------------------------------------------------------------- family part
+MODES = ("inherit", "override", "blank")  # what a subclass does with the js / css of its base class
+PATTERNS = [(j, c) for j in MODES for c in MODES]
+ROOT_PATTERNS = [(j, c) for j in ("override", "inherit") for c in ("override", "inherit")]  # root has / has not js, css
+UNIFORM = [(m, m) for m in MODES]
+
+
+class Family:
+    """A closed set of component classes related by subclassing.
+
+    members: ((role, parent role | None, js mode, css mode), ...) - parents before children, the root is 'r'."""
+
+    def __init__(self, kind, members):
+        self.kind = kind
+        self.members = tuple(members)
+        self.roles = tuple(m[0] for m in members)
+        self.spec = {m[0]: {"parent": m[1], "js": m[2], "css": m[3]} for m in members}
+        self.name = kind + "/" + "/".join(f"{r}{'(' + p + ')' if p else ''}={j[0]}{c[0]}" for r, p, j, c in members)
+        self.tag = kind + "_" + "_".join(f"{r}{p or ''}{j[0]}{c[0]}" for r, p, j, c in members)
+
+    def literal(self, role, kind):
+        return f"console.log('{role}')" if kind == "js" else f".{role} {{ color: red }}"
+
+    def ref_code(self, role, kind):
+        """Reference (documented subclassing rule): the nearest class of the chain that defines js / css wins."""
+        while role is not None:
+            mode = self.spec[role][kind]
+            if mode == "override":
+                return self.literal(role, kind)
+            if mode == "blank":
+                return ""
+            role = self.spec[role]["parent"]
+        return None
+
+
+def families(tier):
+    """pairs: full product root shape x (js mode, css mode) of the subclass; three classes (chain r<-x<-y, siblings
+    r<-x, r<-y; root with js+css): both subclasses uniform (js mode == css mode) in the quick tier, the full
+    (js mode, css mode)^2 product in the thorough tier (siblings: unordered).  quick is a subset of thorough."""
+    fams = []
+    for rp in ROOT_PATTERNS:
+        for p in PATTERNS:
+            fams.append(Family("pair", [("r", None) + rp, ("x", "r") + p]))
+    pats = PATTERNS if tier == "thorough" else UNIFORM
+    root = ("r", None, "override", "override")
+    for p1 in pats:
+        for p2 in pats:
+            fams.append(Family("chain", [root, ("x", "r") + p1, ("y", "x") + p2]))
+    for i, p1 in enumerate(pats):
+        for p2 in pats[i:]:
+            fams.append(Family("sibs", [root, ("x", "r") + p1, ("y", "r") + p2]))
+    return fams
+
+
+def family_by_name(name):
+    for f in families("thorough"):
+        if f.name == name:
+            return f
+    raise ValueError(name)
+
+
+def family_classes(fam):
+    """role -> component class (created once per process and kept alive), registered as '<tag>_<role>'."""
+    e = env()
+    if not hasattr(e, "fam_cls"):
+        e.fam_cls = {}
+    if fam.name not in e.fam_cls:
+        from django_components import Component
+        from django_components.component_registry import registry
+
+        table = {}
+        for role, parent, js, css in fam.members:
+            attrs = {"__module__": "verif_c19", "template": DOC % f"<div>{role}</div>"}
+            for kind, mode in (("js", js), ("css", css)):
+                if mode == "override":
+                    attrs[kind] = fam.literal(role, kind)
+                elif mode == "blank":
+                    attrs[kind] = ""
+            table[role] = type(f"C19F_{fam.tag}_{role}", (table[parent] if parent else Component,), attrs)
+            reg = fam_regname(fam, role)
+            if reg in registry.all():
+                registry.unregister(reg)
+            registry.register(reg, table[role])
+        e.fam_cls[fam.name] = table
+    return e.fam_cls[fam.name]
+
+
+def fam_regname(fam, role):
+    return f"c19f_{fam.tag}_{role}".lower()
+
+
+def fam_ops(fam):
+    ops = []
+    for r in fam.roles:
+        for t in ("document", "fragment"):
+            ops.append(("render", r, t))
+    for t in ("document", "fragment"):
+        ops.append(("page", t))
+    ops.append(("clear",))
+    for r in fam.roles:
+        for kind in ("js", "css"):
+            if len(fam.roles) == 2 or kind == "js" or r == "r":  # three classes: x.css / y.css are not evicted singly
+                ops.append(("evict", r, kind))
+    return ops
+
+
+class FamWorld:
+    def __init__(self, fam, cache_cfg):
+        _fresh_library(cache_cfg)
+        self.fam = fam
+        self.cls = family_classes(fam)
+        self.cache_cfg = cache_cfg
+        self.trace = ()
+        self.emitted = 0
+        self.raised = 0
+
+
+def _fam_do(w: FamWorld, op):
+    """-> (html | None, roles whose render produced the html)"""
+    from django.template import Context, Template
+
+    from django_components.dependencies import render_dependencies
+
+    kind = op[0]
+    if kind == "render":
+        return w.cls[op[1]].render(type=op[2]), (op[1],)
+    if kind == "page":
+        body = "<hr>".join("{% component '" + fam_regname(w.fam, r) + "' / %}" for r in w.fam.roles)
+        return render_dependencies(Template(DOC % body).render(Context({})), op[1]), w.fam.roles
+    if kind == "clear":
+        media_cache().clear()
+        return None, ()
+    if kind == "evict":
+        media_cache().delete(cache_key(w.cls[op[1]], op[2]))
+        return None, ()
+    raise AssertionError(kind)
+
+
+def _bodies(code):
+    return (code, code.strip()) if isinstance(code, str) and code.strip() else ()
+
+
+def fam_check_served(w: FamWorld, url, rendered):
+    """An announced URL names every *rendered* class that carries its hash; it must be served with the code of each."""
+    m = URL_RE.match(url)
+    owners = [r for r in rendered if m and m.group("input") is None and w.cls[r]._class_hash == m.group("hash")]
+    if not owners:
+        return f"emitted-unknown: emitted URL {url!r} does not name js/css of a component this step rendered {list(rendered)}"
+    kind = m.group("kind")
+    status, body, ctype = fetch(url)
+    for r in owners:
+        ok = _bodies(w.fam.ref_code(r, kind))
+        if status != 200:
+            return f"dead-url: URL {url} emitted by a render of {r} answered {status}, expected 200 with {r}'s {kind}"
+        if not ok:
+            return f"no-code: URL {url} emitted by a render of {r}, which has no {kind} (answered 200 with {body[:60]!r})"
+        if body not in ok:
+            return f"wrong-body: URL {url} emitted by a render of {r} served {body[:60]!r}, expected {r}'s {kind} {ok[-1][:60]!r}"
+        if not ctype.startswith(CTYPE[kind]):
+            return f"wrong-type: URL {url} emitted by a render of {r} served content type {ctype!r}, expected {CTYPE[kind]}"
+    return None
+
+
+def fam_check_lapsed(w: FamWorld, url):
+    """A URL of the family this step did not announce: 404, or the code of every class it names; never 5xx."""
+    m = URL_RE.match(url)
+    kind = m.group("kind")
+    owners = [r for r in w.fam.roles if w.cls[r]._class_hash == m.group("hash")]
+    status, body, ctype = fetch(url)
+    if status >= 500:
+        return f"server-error: GET {url} ({'/'.join(owners)}.{kind}) answered {status}"
+    if status not in (200, 404):
+        return f"odd-status: GET {url} ({'/'.join(owners)}.{kind}) answered {status}"
+    if status == 200:
+        for r in owners:
+            if body not in (_bodies(w.fam.ref_code(r, kind)) or ("",)):
+                return f"foreign-body: GET {url} ({r}.{kind}) served {body[:60]!r}"
+    return None
+
+
+def fam_universe(w: FamWorld):
+    return sorted({f"/components/cache/{w.cls[r]._class_hash}.{kind}" for r in w.fam.roles for kind in ("js", "css")})
+
+
+def _fam_sym(w: FamWorld, url):
+    m = URL_RE.match(url)
+    owners = [r for r in w.fam.roles if m and w.cls[r]._class_hash == m.group("hash")]
+    return url if not owners else "/".join(owners) + "." + m.group("kind") + (".vars" if m.group("input") else "")
+
+
+def fam_step(w: FamWorld, op):
+    w.trace = w.trace + (op,)
+    replayed = w.trace in _VALIDATED
+    try:
+        html, rendered = _fam_do(w, op)
+    except Exception as ex:  # noqa
+        w.raised += 1
+        boot.clear_render_registries()
+        return ("raised", op[0], type(ex).__name__), None
+    emitted = []
+    if html is not None:
+        emitted = sorted({u for _, u in extract_urls(html)})
+        w.emitted += len(emitted)
+    if replayed:
+        return None, None
+    opsym = op[0] + (":" + op[-1] if op[0] in ("render", "page") else "")
+    obs = ("emitted", op[1] if op[0] == "render" else op[0], tuple(_fam_sym(w, u) for u in emitted))
+    for u in emitted:
+        problem = fam_check_served(w, u, rendered)
+        if problem:
+            return obs, _tag(problem, opsym)
+    for u in fam_universe(w):
+        if u not in emitted:
+            problem = fam_check_lapsed(w, u)
+            if problem:
+                return obs, _tag(problem, opsym)
+    _VALIDATED.add(w.trace)
+    return obs, None
+
+
+def fam_canon(w: FamWorld):
+    c = media_cache()
+    return tuple((r, kind) for r in w.fam.roles for kind in ("js", "css") if c.has_key(cache_key(w.cls[r], kind)))
+
+
+def _related_cached(key):
+    """state in which scripts of at least two classes of the family are cached side by side"""
+    return len({r for r, _ in key}) >= 2
+
+
+def _fam_bfs_task(arg):
+    tier, idx, cache_cfg = arg
+    fam = families(tier)[idx]
+    _VALIDATED.clear()
+    ops = fam_ops(fam)
+    r = seq.bfs(lambda: FamWorld(fam, cache_cfg), ops, fam_step, fam_canon, max_states=100000, fail_limit=FAIL_LIMIT)
+    _cleanup()
+    return {"family": fam.name, "cfg": cache_cfg, "states": r.states, "transitions": r.transitions, "failures": r.failures,
+            "fixpoint": r.fixpoint, "max_depth": r.max_depth, "samples": r.sample_histories, "outcomes": sorted(r.outcomes),
+            "seen": set(r.seen.keys()), "nontrivial": sum(1 for k in r.seen if _related_cached(k)), "ops": len(ops)}
+
+
+def _fam_unmerged_task(arg):
+    tier, idx, cache_cfg, depth = arg
+    fam = families(tier)[idx]
+    _VALIDATED.clear()
+    n_seq, n_tr, failures, outcomes, canon_states = seq.all_sequences(
+        lambda: FamWorld(fam, cache_cfg), fam_ops(fam), fam_step, depth, canon=fam_canon, fail_limit=FAIL_LIMIT
+    )
+    _cleanup()
+    return fam.name, cache_cfg, n_seq, n_tr, failures, canon_states, sorted(outcomes)
 
 
 # ----------------------------------------------------------------------------- shapes part
